@@ -104,6 +104,12 @@ CLAIMED = {
         "Atomic unit = Dask task (no intra-task interleavings). Copy-back completeness is decided by the isolated differential run. ISV/JFA per-class regrouping is C12's theorem. Found and fixed D11 (D1 was found through C06).",
         "§6 C04",
     ),
+    "C09": (
+        "Lean 4 theorems: each JFA phase iteration of the model IS the abstract linear-Gaussian EM step (rows = supervector entries; items = classes for V, sessions for U, classes per entry for D) and therefore never decreases that phase's marginal likelihood (linGaussEM_monotone: variational bound, log det P + log det S <= tr(PS) - n, concave quadratic maximisation), for every rank; Float model of e_step_v/u/d, finalize_v/u, m_steps and whole fits vs the implementation",
+        "Proof for all UBMs with positive variances, all labelled statistics with non-negative fractional counts in which every component is observed, all ranks, all current U, V, D. Tie: accumulators of the first E-step of every phase, finalize_v, and JFA / ISV fits of 1-3 iterations per phase compared with the implementation (2-4 classes, 1-4 sessions).",
+        "Real arithmetic; np.linalg.inv is a parameter with contract 'exact inverse' (at Real: Mathlib's inverse). The phase objectives freeze the other subspaces and point estimates exactly as the code does (V phase: x = z = 0; U phase: y fixed, z = 0; D phase: x, y fixed).",
+        "§6 C09",
+    ),
 }
 
 NOT_YET = "check not built yet in this round (see DESIGN.md §8 order of work); not claimed"
